@@ -146,6 +146,7 @@ impl Entry {
     /// It should be safe to call `C::finalize` on the entry after the `guard` is dropped, where `C`
     /// is the associated helper for the linked list.
     pub(crate) unsafe fn delete(&self, guard: &Guard) {
+        vy!(52, self as *const Entry, 0);
         self.next.fetch_or(1, Release, guard);
     }
 }
@@ -177,12 +178,15 @@ impl<T, C: IsElement<T>> List<T, C> {
         // Make a Shared ptr to that Entry.
         let entry_ptr = RawShared::from(entry as *const _);
         // Read the current successor of where we want to insert.
+        vy!(50, entry as *const Entry, 0);
         let mut next = to.load(Relaxed, guard);
+        vy!(1250, next.as_raw(), next.tag());
 
         loop {
             // Set the Entry of the to-be-inserted element to point to the previous successor of
             // `to`.
             entry.next.store(next, Relaxed);
+            vy!(51, entry as *const Entry, next.as_raw());
             match to.compare_exchange_weak(next, entry_ptr, Release, Relaxed, guard) {
                 Ok(_) => break,
                 // We lost the race or weak CAS failed spuriously. Update the successor and try
@@ -205,6 +209,7 @@ impl<T, C: IsElement<T>> List<T, C> {
     /// 3. The iteration may be aborted when it lost in a race condition. In this case, the winning
     ///    thread will continue to iterate over the same list.
     pub(crate) fn iter<'g>(&'g self, guard: &'g Guard) -> Iter<'g, T, C> {
+        vy!(53, 0, 0);
         Iter {
             guard,
             pred: &self.head,
@@ -237,7 +242,9 @@ impl<'g, T: 'g, C: IsElement<T>> Iterator for Iter<'g, T, C> {
 
     fn next(&mut self) -> Option<Self::Item> {
         while let Some(c) = unsafe { self.curr.as_ref() } {
+            vy!(54, c as *const Entry, 0);
             let succ = c.next.load(Acquire, self.guard);
+            vy!(1254, succ.as_raw(), succ.tag());
 
             if succ.tag() == 1 {
                 // This entry was removed. Try unlinking it from the list.
@@ -248,6 +255,7 @@ impl<'g, T: 'g, C: IsElement<T>> Iterator for Iter<'g, T, C> {
                 debug_assert!(self.curr.tag() == 0);
 
                 // Try to unlink `curr` from the list, and get the new value of `self.pred`.
+                vy!(55, self.curr.as_raw(), succ.as_raw());
                 let succ = match self
                     .pred
                     .compare_exchange(self.curr, succ, Acquire, Acquire, self.guard)
@@ -257,6 +265,7 @@ impl<'g, T: 'g, C: IsElement<T>> Iterator for Iter<'g, T, C> {
                         // deallocation. Deferred drop is okay, because `list.delete()` can only be
                         // called if `T: 'static`.
                         unsafe {
+                            vy!(1255, self.curr.as_raw(), 0);
                             C::finalize(self.curr.deref(), self.guard);
                         }
 
@@ -273,6 +282,7 @@ impl<'g, T: 'g, C: IsElement<T>> Iterator for Iter<'g, T, C> {
                 // `head`.
                 if succ.tag() != 0 {
                     self.pred = self.head;
+                    vy!(56, 0, 0);
                     self.curr = self.head.load(Acquire, self.guard);
 
                     return Some(Err(IterError::Stalled));
@@ -483,5 +493,76 @@ mod tests {
 
         let mut iter = l.iter(&guard);
         assert!(iter.next().is_none());
+    }
+}
+
+/// An intrusive list of plain entries for the verification harness.
+#[cfg(circ_verif)]
+pub mod verif_shim_list {
+    use super::*;
+
+    /// An element: the entry plus an id.
+    pub struct VElem {
+        entry: Entry,
+        pub id: usize,
+    }
+
+    impl IsElement<VElem> for VElem {
+        fn entry_of(e: &VElem) -> &Entry {
+            &e.entry
+        }
+        unsafe fn element_of(entry: &Entry) -> &VElem {
+            // `entry` is the first field of the `repr(Rust)` struct only by luck; compute properly.
+            let off = memoffset::offset_of!(VElem, entry);
+            &*((entry as *const Entry as usize - off) as *const VElem)
+        }
+        unsafe fn finalize(entry: &Entry, guard: &Guard) {
+            let e = Self::element_of(entry);
+            vy!(1256, e.id, 0);
+            guard.defer_destroy(RawShared::from(e as *const VElem));
+        }
+    }
+
+    pub struct VList(List<VElem>);
+
+    impl VList {
+        pub fn new() -> Self {
+            VList(List::new())
+        }
+        /// Inserts a new element and returns its address (stable until finalized).
+        pub fn insert(&self, id: usize, g: &Guard) -> usize {
+            let e = RawShared::from_owned(VElem {
+                entry: Entry::default(),
+                id,
+            });
+            vy!(1257, unsafe { VElem::entry_of(e.deref()) } as *const Entry, id);
+            unsafe { self.0.insert(e, g) };
+            e.as_raw() as usize
+        }
+        /// Marks the element at `addr` (returned by `insert`) as deleted.
+        ///
+        /// # Safety
+        ///
+        /// `addr` must come from `insert` on this list and be deleted at most once.
+        pub unsafe fn delete(&self, addr: usize, g: &Guard) {
+            (*(addr as *const VElem)).entry.delete(g)
+        }
+        /// One full traversal: `Ok(ids)` or `Err(ids seen before the stall)`.
+        pub fn traverse(&self, g: &Guard) -> Result<Vec<usize>, Vec<usize>> {
+            let mut out = Vec::new();
+            for r in self.0.iter(g) {
+                match r {
+                    Ok(e) => out.push(e.id),
+                    Err(IterError::Stalled) => return Err(out),
+                }
+            }
+            Ok(out)
+        }
+    }
+
+    impl Default for VList {
+        fn default() -> Self {
+            Self::new()
+        }
     }
 }
